@@ -56,6 +56,9 @@ type Case struct {
 	StmtBg bool `json:"stmt_bg,omitempty"`
 	// Server: the server profile of the process that ran the case (fixed per process; a replay adopts it)
 	Server string `json:"server,omitempty"`
+	// KeepGoing: the caller of an explicit transaction ignores a failed statement, runs the rest and calls
+	// Commit; it gives up (global rollback) only when BeginTx or Commit fail
+	KeepGoing bool `json:"keep_going,omitempty"`
 }
 
 // ---- identifiers -----------------------------------------------------------------------------
@@ -211,12 +214,16 @@ func execute(c Case, plan string) (*run, *pt.Failure) {
 	}
 	_, gerr := atenv.Global("c17", func(cx context.Context) error {
 		stmts := texts(r.names, c.Branch)
-		r.res = atenv.RunBranchOpt(cx, env.XA, atenv.BranchOpts{Mode: c.Branch.Mode, Via: c.Branch.Via, StmtBg: c.StmtBg && c.Branch.Mode == "tx", Probe: func(i int, _ atenv.StmtResult) {
+		r.res = atenv.RunBranchOpt(cx, env.XA, atenv.BranchOpts{Mode: c.Branch.Mode, Via: c.Branch.Via, StmtBg: c.StmtBg && c.Branch.Mode == "tx", KeepGoing: c.KeepGoing && c.Branch.Mode == "tx", Probe: func(i int, _ atenv.StmtResult) {
 			if outlives && i == len(stmts)-1 {
 				time.Sleep(60 * time.Millisecond)
 			}
 		}}, stmts)
-		if r.res.Failed() {
+		if c.KeepGoing && c.Branch.Mode == "tx" {
+			if r.res.BeginErr != "" || r.res.CommitErr != "" {
+				return errors.New("business failed: " + r.res.FirstErr())
+			}
+		} else if r.res.Failed() {
 			return errors.New("business failed: " + r.res.FirstErr())
 		}
 		if c.Decision == "rollback" {
@@ -672,6 +679,7 @@ func TestPropScenarios(t *testing.T) {
 			c.Outlives = true
 		}
 		c.StmtBg = br.Mode == "tx" && rapid.IntRange(0, 3).Draw(rt, "stmtBg") == 0
+		c.KeepGoing = br.Mode == "tx" && rapid.IntRange(0, 3).Draw(rt, "keepGoing") == 0
 		planFailed = ""
 		fl := runCase(c)
 		if planFailed != "" {
